@@ -24,6 +24,10 @@ mod performance;
 mod score_state;
 mod strains;
 
+/// Verification hooks; only present with `--cfg rosu_pp_verif`.
+#[cfg(rosu_pp_verif)]
+pub mod verif;
+
 /// Marker type for [`GameMode::Taiko`].
 ///
 /// [`GameMode::Taiko`]: rosu_map::section::general::GameMode::Taiko
